@@ -175,6 +175,7 @@ def run(res, facts, tier):
     c01_scope.run_rule(res, facts, tier)
     c01_scope.r6_params(res, facts)
     c01_scope.r14_attribute_needs_element(res, facts)
+    c01_scope.r19_fragment_not_text_only(res, facts)
 
 
 _run_c01_prev_avt = run
